@@ -280,8 +280,116 @@ def normalize_tree(tree: ast.AST) -> ast.AST:
             new = ast.Assign(targets=[ast.Name(id=a, ctx=ast.Store())], value=ast.Call(func=ast.Name(id=kind, ctx=ast.Load()), args=[ast.Name(id=a, ctx=ast.Load()), copy.deepcopy(b)], keywords=[]))
             return ast.copy_location(new, node)
     tree = Clamp().visit(tree)
+    if os.environ.get("SA_COPYPROP") == "1":  # experimental, off: too many rules are written against the temporaries of the pinned source
+        _copy_propagate(tree)
     ast.fix_missing_locations(tree)
     return tree
+
+
+def _copy_propagate(tree: ast.AST) -> None:
+    """Trivial temporaries are the expression they name: inside a function, a local that is bound exactly once, by a plain
+    assignment `x = <name or attribute chain>` whose root is `self`, a parameter or a module-level name that the function never
+    rebinds, is replaced by that expression wherever it is read (the assignment itself stays, dead).  `total = self.total`,
+    `max_width = options.max_width`, `theme_stack = self._theme_stack` then read as the attribute they stand for - introducing or
+    removing such a temporary cannot change a verdict.  Bound methods (`append = out.append`) are NOT propagated here: the rules
+    resolve those through alias_map where they need to."""
+    import copy
+
+    def chain_root(e):
+        while isinstance(e, ast.Attribute):
+            e = e.value
+        return e if isinstance(e, ast.Name) else None
+
+    for fn in [n for n in ast.walk(tree) if isinstance(n, (ast.FunctionDef, ast.AsyncFunctionDef))]:
+        params = {a.arg for a in fn.args.args + fn.args.kwonlyargs + fn.args.posonlyargs}
+        if fn.args.vararg:
+            params.add(fn.args.vararg.arg)
+        if fn.args.kwarg:
+            params.add(fn.args.kwarg.arg)
+        stores: Dict[str, int] = {}
+        cands: Dict[str, ast.AST] = {}
+        own = []
+        stack = list(fn.body)
+        while stack:
+            x = stack.pop()
+            own.append(x)
+            for c in ast.iter_child_nodes(x):
+                if isinstance(c, (ast.FunctionDef, ast.AsyncFunctionDef, ast.Lambda, ast.ClassDef)):
+                    # names stored in nested scopes are their own; names they READ are handled below (not substituted)
+                    continue
+                stack.append(c)
+        for x in own:
+            if isinstance(x, ast.Name) and isinstance(x.ctx, (ast.Store, ast.Del)):
+                stores[x.id] = stores.get(x.id, 0) + 1
+            elif isinstance(x, (ast.Global, ast.Nonlocal)):
+                for nme in x.names:
+                    stores[nme] = stores.get(nme, 0) + 2
+            elif isinstance(x, ast.ExceptHandler) and x.name:
+                stores[x.name] = stores.get(x.name, 0) + 2
+        for x in own:
+            if isinstance(x, ast.Assign) and len(x.targets) == 1 and isinstance(x.targets[0], ast.Name) and isinstance(x.value, (ast.Attribute, ast.Name)):
+                nm = x.targets[0].id
+                r = chain_root(x.value)
+                if r is None or nm in params or stores.get(nm, 0) != 1:
+                    continue
+                if r.id == nm or stores.get(r.id, 0) > 0 and r.id not in params:
+                    continue  # the root is itself a (re)bound local: leave to the rules' own inlining
+                if r.id in params and stores.get(r.id, 0) > 0:
+                    continue  # parameter rebound later
+                if isinstance(x.value, ast.Attribute):
+                    # attribute chains only when no part of the chain is stored to in this function (x.a = .. after t = x.a)
+                    txt = ast.unparse(x.value)
+                    if any(isinstance(y, ast.Attribute) and isinstance(y.ctx, ast.Store) and ast.unparse(y) == txt for y in own):
+                        continue
+                    # a bound method / callable alias is left alone
+                    used_as_callee = any(isinstance(y, ast.Call) and isinstance(y.func, ast.Name) and y.func.id == nm for y in own)
+                    if used_as_callee:
+                        continue
+                cands[nm] = x.value
+        if not cands:
+            continue
+        # names read inside nested scopes keep their name (a closure reads the variable, which may be fine, but we do not rewrite scopes)
+        nested_reads = set()
+        for x in ast.walk(fn):
+            if isinstance(x, (ast.FunctionDef, ast.AsyncFunctionDef, ast.Lambda)) and x is not fn:
+                for y in ast.walk(x):
+                    if isinstance(y, ast.Name):
+                        nested_reads.add(y.id)
+        cands = {k: v for k, v in cands.items() if k not in nested_reads}
+        if not cands:
+            continue
+
+        class P(ast.NodeTransformer):
+            def visit_FunctionDef(self, node):
+                return node if node is not fn else self.generic_visit(node)
+            visit_AsyncFunctionDef = visit_FunctionDef
+            visit_Lambda = lambda self, node: node  # noqa: E731
+            visit_ClassDef = lambda self, node: node  # noqa: E731
+
+            def visit_Name(self, node):
+                if isinstance(node.ctx, ast.Load) and node.id in cands:
+                    return ast.copy_location(copy.deepcopy(cands[node.id]), node)
+                return node
+        new_body = []
+        for st in fn.body:
+            new_body.append(P().visit(st))
+        fn.body = new_body
+
+
+_BASELINE = None
+
+
+def _baseline_symbols():
+    """functions the rules were written against (per module); anything else is a helper introduced later and is expanded
+    at its call sites before indexing (sa/inliner.py)"""
+    global _BASELINE
+    if _BASELINE is None:
+        import json
+        try:
+            _BASELINE = {k: set(v) for k, v in json.load(open(os.path.join(os.path.dirname(os.path.abspath(__file__)), "baseline_symbols.json"))).items()}
+        except OSError:
+            _BASELINE = {}
+    return _BASELINE
 
 
 class Module:
@@ -293,6 +401,9 @@ class Module:
         self.src = src
         self.tree = ast.parse(src, filename=path)
         if os.environ.get("SA_NO_NORMALIZE") != "1":
+            if os.environ.get("SA_NO_INLINE") != "1":
+                from .inliner import inline_module
+                self.tree = inline_module(self.tree, _baseline_symbols().get(self.relpath))
             self.tree = normalize_tree(self.tree)
         self.functions: Dict[str, FuncInfo] = {}
         self.classes: Dict[str, ClassInfo] = {}
